@@ -1,0 +1,11 @@
+//go:build verif
+
+package eval
+
+// Verification hooks (build tag "verif"): expose unexported pure helpers to the out-of-tree harness.
+
+// VerifEncodeCiphertext exposes encodeCiphertext.
+func VerifEncodeCiphertext(ciphertext []byte) string { return encodeCiphertext(ciphertext) }
+
+// VerifDecodeCiphertext exposes decodeCiphertext.
+func VerifDecodeCiphertext(repr string) ([]byte, error) { return decodeCiphertext(repr) }
